@@ -1,5 +1,778 @@
+(* C10 - proofs about the model of z_chan.go (C10/Model.v): ring buffer arithmetic, refinement of
+   Go's channel semantics by the buffered channel (invariant over all schedules), no lost wake-up,
+   non-blocking operations, results vs. event log, and the witnesses of the recorded defects. *)
 From LLGoV Require Import Lib.Common C10.Model.
 
+(* ================= part 1 ================= *)
+
+(* ---------- lists ---------- *)
+Lemma upd_length {A} (l : list A) i x : length (upd l i x) = length l.
+Proof. revert i; induction l; destruct i; cbn; auto. Qed.
+
+Lemma nth_upd_same {A} (l : list A) i x d : i < length l -> nth i (upd l i x) d = x.
+Proof. revert i; induction l; destruct i; cbn; intros; try lia; auto. apply IHl. lia. Qed.
+
+Lemma nth_upd_other {A} (l : list A) i j x d : i <> j -> nth j (upd l i x) d = nth j l d.
+Proof. revert i j; induction l; destruct i, j; cbn; intros; try congruence; auto. Qed.
+
+Lemma nth_error_upd_same {A} (l : list A) i x : i < length l -> nth_error (upd l i x) i = Some x.
+Proof. revert i; induction l; destruct i; cbn; intros; try lia; auto. apply IHl. lia. Qed.
+
+Lemma nth_error_upd_other {A} (l : list A) i j x : i <> j -> nth_error (upd l i x) j = nth_error l j.
+Proof. revert i j; induction l; destruct i, j; cbn; intros; try congruence; auto. Qed.
+
+Lemma nth_error_lt {A} (l : list A) i x : nth_error l i = Some x -> i < length l.
+Proof. intros H. apply nth_error_Some. congruence. Qed.
+
+(* ---------- arithmetic of the ring buffer ---------- *)
+Lemma mod_lt2 a c : 0 < c -> a < 2 * c -> a mod c = if a <? c then a else a - c.
+Proof.
+  intros Hc Ha. destruct (Nat.ltb_spec a c).
+  - now apply Nat.mod_small.
+  - symmetry. apply Nat.mod_unique with (q := 1); lia.
+Qed.
+
+Definition wf (c : chan) : Prop :=
+  0 < cap c /\ length (buf c) = cap c /\ getp c < cap c /\ len c <= cap c.
+
+Lemma contents_length c : length (contents c) = len c.
+Proof. unfold contents. now rewrite map_length, seq_length. Qed.
+
+Lemma contents_put c v : wf c -> len c < cap c -> contents (put c v) = contents c ++ [v].
+Proof.
+  intros (Hc & Hl & Hg & Hn) Hlt. unfold contents, put; cbn [getp len cap buf].
+  rewrite seq_S, map_app. cbn [map]. f_equal.
+  - apply map_ext_in. intros i Hi. apply in_seq in Hi.
+    apply nth_upd_other.
+    rewrite !mod_lt2 by lia.
+    destruct (Nat.ltb_spec (getp c + len c) (cap c)), (Nat.ltb_spec (getp c + i) (cap c)). all: lia.
+  - f_equal. cbn. apply nth_upd_same. rewrite Hl. apply Nat.mod_upper_bound. lia.
+Qed.
+
+Lemma contents_take c : wf c -> 0 < len c -> contents c = front c :: contents (take c).
+Proof.
+  intros (Hc & Hl & Hg & Hn) Hlt. unfold contents, take, front; cbn [getp len cap buf].
+  destruct (len c) as [|k] eqn:E; [lia|]. cbn [pred].
+  rewrite <- cons_seq. cbn [map]. f_equal.
+  - f_equal. rewrite Nat.add_0_r. now apply Nat.mod_small.
+  - rewrite <- seq_shift, map_map. apply map_ext_in. intros i Hi. apply in_seq in Hi.
+    f_equal. rewrite (mod_lt2 (getp c + 1)), (mod_lt2 (getp c + S i)) by lia.
+    destruct (Nat.ltb_spec (getp c + 1) (cap c)).
+    + rewrite mod_lt2 by lia.
+      repeat match goal with |- context [?a <? ?b] => destruct (Nat.ltb_spec a b) end; lia.
+    + rewrite mod_lt2 by lia.
+      repeat match goal with |- context [?a <? ?b] => destruct (Nat.ltb_spec a b) end; lia.
+Qed.
+
+Lemma wf_put c v : wf c -> len c < cap c -> wf (put c v).
+Proof. intros (Hc & Hl & Hg & Hn) H. unfold wf, put; cbn. rewrite upd_length. lia. Qed.
+
+Lemma wf_take c : wf c -> 0 < len c -> wf (take c).
+Proof.
+  intros (Hc & Hl & Hg & Hn) H. unfold wf, take; cbn. repeat split; try lia.
+  apply Nat.mod_upper_bound. lia.
+Qed.
+
+(* ================= part 2 ================= *)
+
+Definition absc (c : chan) : spec := mkSpec (contents c) (closed c).
+
+(* program counters that a buffered channel never reaches *)
+Definition pc_buf (p : pc) : Prop :=
+  match p with PRecv2 | PRecv2W | PBcast None => False | _ => True end.
+
+Definition sec_ok (c : chan) (th : thread) (e : eff) : Prop :=
+  wf (e_ch e) /\ cap (e_ch e) = cap c /\ pc_buf (tpc (e_th e)) /\ e_deliver e = None /\
+  match e_ev e with
+  | Some ev => spec_step (cap c) (absc c) ev = Some (absc (e_ch e))
+  | None => absc (e_ch e) = absc c
+  end.
+
+Lemma contents_nil c : len c = 0 -> contents c = [].
+Proof. intros H. unfold contents. now rewrite H. Qed.
+
+Lemma cap_nz c : wf c -> (cap c =? 0) = false.
+Proof. intros (H & _). apply Nat.eqb_neq. lia. Qed.
+
+Lemma spec_send_ok c v :
+  wf c -> len c < cap c -> closed c = false ->
+  spec_step (cap c) (absc c) (ESend v) = Some (absc (put c v)).
+Proof.
+  intros W H Ec. unfold spec_step, absc. cbn [sq sclosed]. rewrite Ec, contents_length.
+  assert (len c <? cap c = true) as -> by (apply Nat.ltb_lt; lia). cbn [negb andb].
+  rewrite contents_put by auto. unfold put; cbn [closed]. now rewrite Ec.
+Qed.
+
+Lemma spec_recv_ok c :
+  wf c -> 0 < len c ->
+  spec_step (cap c) (absc c) (ERecv (front c)) = Some (absc (take c)).
+Proof.
+  intros W H. unfold spec_step, absc. cbn [sq sclosed].
+  rewrite (contents_take c) by auto. now rewrite N.eqb_refl.
+Qed.
+
+Lemma noop_ok c th : wf c -> pc_buf (tpc th) -> sec_ok c th (noop c th).
+Proof. intros. unfold sec_ok, noop; cbn. repeat split; auto; apply H. Qed.
+
+Lemma section_ok c th t o rest :
+  wf c -> pc_buf (tpc th) -> sec_ok c th (section c th t o rest).
+Proof.
+  intros W P. pose proof (cap_nz c W) as Hz. pose proof W as (Hc & Hl & Hg & Hn).
+  unfold section.
+  destruct (tpc th) as [| | |r| |] eqn:Epc; cbn in P; try contradiction.
+  - (* PStart *)
+    destruct o as [v| |v| |].
+    + unfold send_sec. rewrite Hz.
+      destruct (Nat.eqb_spec (len c) (cap c)) as [E|E].
+      { repeat split; auto. }
+      destruct (closed c) eqn:Ec.
+      { repeat split; auto. cbn. now rewrite Ec. }
+      pose proof (wf_put c v W ltac:(lia)) as W'.
+      repeat split; auto; try apply W'. apply spec_send_ok; auto; lia.
+    + unfold recv_sec. rewrite Hz.
+      destruct (Nat.eqb_spec (len c) 0) as [E|E].
+      { destruct (closed c) eqn:Ec; repeat split; auto.
+        cbn. rewrite contents_nil by auto. now rewrite Ec. }
+      pose proof (wf_take c W ltac:(lia)) as W'.
+      repeat split; auto; try apply W'. apply spec_recv_ok; auto; lia.
+    + unfold trysend_sec. rewrite Hz.
+      destruct (Nat.eqb_spec (len c) (cap c)) as [E|E]; cbn [orb].
+      { repeat split; auto. cbn. rewrite contents_length, E, Nat.eqb_refl. now rewrite orb_true_r. }
+      destruct (closed c) eqn:Ec.
+      { repeat split; auto. cbn. now rewrite Ec. }
+      pose proof (wf_put c v W ltac:(lia)) as W'.
+      repeat split; auto; try apply W'. apply spec_send_ok; auto; lia.
+    + unfold tryrecv_sec. rewrite Hz.
+      destruct (Nat.eqb_spec (len c) 0) as [E|E].
+      { destruct (closed c) eqn:Ec; repeat split; auto;
+          cbn [e_ev e_ch e_th e_deliver spec_step absc sq sclosed];
+          rewrite ?contents_nil by auto; rewrite ?Ec; auto. }
+      pose proof (wf_take c W ltac:(lia)) as W'.
+      repeat split; auto; try apply W'. apply spec_recv_ok; auto; lia.
+    + repeat split; auto.
+  - (* PSendW *)
+    destruct o as [v| |v| |]; try (apply noop_ok; auto; rewrite Epc; exact I).
+    rewrite Hz. unfold send_sec. rewrite Hz.
+    destruct (Nat.eqb_spec (len c) (cap c)) as [E|E].
+    { repeat split; auto. }
+    destruct (closed c) eqn:Ec.
+    { repeat split; auto. cbn. now rewrite Ec. }
+    pose proof (wf_put c v W ltac:(lia)) as W'.
+    repeat split; auto; try apply W'. apply spec_send_ok; auto; lia.
+  - (* PRecvW *)
+    destruct o as [v| |v| |]; try (apply noop_ok; auto; rewrite Epc; exact I).
+    unfold recv_sec. rewrite Hz.
+    destruct (Nat.eqb_spec (len c) 0) as [E|E].
+    { destruct (closed c) eqn:Ec; repeat split; auto.
+      cbn. rewrite contents_nil by auto. now rewrite Ec. }
+    pose proof (wf_take c W ltac:(lia)) as W'.
+    repeat split; auto; try apply W'. apply spec_recv_ok; auto; lia.
+  - (* PBcast *)
+    destruct r as [r|]; [|contradiction]. repeat split; auto.
+Qed.
+
+(* ================= part 3 ================= *)
+
+Lemma Forall_upd {A} (P : A -> Prop) l i x : Forall P l -> P x -> Forall P (upd l i x).
+Proof.
+  intros H Hx. revert i. induction H; destruct i; cbn; auto.
+Qed.
+
+Lemma Forall_nth_error {A} (P : A -> Prop) l i x : Forall P l -> nth_error l i = Some x -> P x.
+Proof. intros H E. rewrite Forall_forall in H. apply H. eapply nth_error_In; eauto. Qed.
+
+Lemma spec_run_snoc n a l e :
+  spec_run n a (l ++ [e]) = match spec_run n a l with Some a' => spec_step n a' e | None => None end.
+Proof.
+  revert a. induction l as [|x l IH]; intros a; cbn.
+  - destruct (spec_step n a e); auto.
+  - destruct (spec_step n a x); auto.
+Qed.
+
+(* what the steps of one thread look like *)
+Lemma step_inv s t s' :
+  step s t = Some s' ->
+  exists th o rest, nth_error (ths s) t = Some th /\ prog th = o :: rest /\
+    ((parked th = true /\ s' = mkSt (ch s) (upd (ths s) t (unpark th)) (log s)) \/
+     (parked th = false /\ s' = apply_eff s t (section (ch s) th t o rest))).
+Proof.
+  unfold step. destruct (nth_error (ths s) t) as [th|] eqn:E; [|discriminate].
+  destruct (prog th) as [|o rest] eqn:Ep; [discriminate|].
+  destruct (parked th) eqn:Epk; intros [= <-]; exists th, o, rest; auto.
+Qed.
+
+Definition spec0 : spec := mkSpec [] false.
+
+Definition inv (n : nat) (s : state) : Prop :=
+  wf (ch s) /\ cap (ch s) = n /\ Forall (fun th => pc_buf (tpc th)) (ths s) /\
+  spec_run n spec0 (events s) = Some (abs s).
+
+Lemma inv_step n s t s' : inv n s -> step s t = Some s' -> inv n s'.
+Proof.
+  intros (W & Hc & HF & HS) H.
+  apply step_inv in H as (th & o & rest & Et & Ep & [[Epk ->]|[Epk ->]]).
+  - unfold inv; cbn [ch ths log]. refine (conj W (conj Hc (conj _ HS))).
+    apply Forall_upd; auto. exact (Forall_nth_error _ _ _ _ HF Et).
+  - pose proof (Forall_nth_error _ _ _ _ HF Et) as Hpc. cbn beta in Hpc.
+    pose proof (section_ok (ch s) th t o rest W Hpc) as (W' & Hc' & Hpc' & Hd & Hev).
+    set (e := section (ch s) th t o rest) in *.
+    unfold inv, apply_eff. cbn [ch ths log]. refine (conj W' (conj _ (conj _ _))); try congruence.
+    + rewrite Hd. cbn [deliver].
+      assert (Forall (fun th0 => pc_buf (tpc th0)) (upd (ths s) t (e_th e))) as HF'
+        by (apply Forall_upd; auto).
+      destruct (e_bcast e); auto.
+      rewrite Forall_map. revert HF'. apply Forall_impl. intros a. now destruct a.
+    + unfold events, abs in *. cbn [log ch].
+      destruct (e_ev e) as [ev|].
+      * rewrite map_app. cbn [map snd]. rewrite spec_run_snoc, HS. rewrite <- Hc. exact Hev.
+      * rewrite HS. f_equal. symmetry. exact Hev.
+Qed.
+
+Lemma inv_run n sc : forall s, inv n s -> inv n (run sc s).
+Proof.
+  induction sc as [|t sc IH]; intros s H; cbn; auto.
+  destruct (step s t) eqn:E; auto. apply IH. eapply inv_step; eauto.
+Qed.
+
+Lemma inv_init n progs : 0 < n -> inv n (init n progs).
+Proof.
+  intros H. unfold inv, init, wf, init_chan, events, abs; cbn.
+  rewrite repeat_length. repeat split; auto; try lia.
+  apply Forall_forall. intros th Hin. apply in_map_iff in Hin as (p & <- & _). exact I.
+Qed.
+
+(* ---- facts about every event sequence Go accepts ---- *)
+Lemma spec_fifo n l : forall a a', spec_run n a l = Some a' ->
+  sq a ++ sent_of l = rcvd_of l ++ sq a'.
+Proof.
+  induction l as [|e l IH]; intros a a' H; cbn in H.
+  - injection H as <-. cbn. now rewrite app_nil_r.
+  - destruct (spec_step n a e) as [a1|] eqn:E; [|discriminate].
+    specialize (IH _ _ H).
+    destruct e; unfold spec_step in E; cbn [sent_of rcvd_of flat_map app].
+    + destruct (negb (sclosed a) && (length (sq a) <? n)); [|discriminate].
+      injection E as <-. cbn in IH. now rewrite <- app_assoc in IH.
+    + destruct (sq a) as [|x q] eqn:Eq; [discriminate|]. destruct (N.eqb_spec x v); [|discriminate].
+      injection E as <-. cbn in IH. subst x. cbn. f_equal. exact IH.
+    + destruct (sq a) eqn:Eq; [|discriminate]. destruct (sclosed a); [|discriminate]. injection E as <-.
+      cbn in *. now rewrite Eq in IH.
+    + injection E as <-. exact IH.
+    + destruct (sclosed a); [|discriminate]. injection E as <-. exact IH.
+    + destruct (sclosed a || (length (sq a) =? n)); [|discriminate]. injection E as <-. exact IH.
+    + destruct (sq a) eqn:Eq; [|discriminate]. destruct (sclosed a); [discriminate|]. injection E as <-.
+      cbn in *. now rewrite Eq in IH.
+Qed.
+
+Lemma spec_run_app n l1 l2 : forall a a', spec_run n a (l1 ++ l2) = Some a' ->
+  exists a1, spec_run n a l1 = Some a1 /\ spec_run n a1 l2 = Some a'.
+Proof.
+  induction l1 as [|e l1 IH]; intros a a' H; cbn in *.
+  - eauto.
+  - destruct (spec_step n a e); [|discriminate]. auto.
+Qed.
+
+Lemma spec_len n l : forall a a', length (sq a) <= n -> spec_run n a l = Some a' -> length (sq a') <= n.
+Proof.
+  induction l as [|e l IH]; intros a a' Hl H; cbn in H.
+  - now injection H as <-.
+  - destruct (spec_step n a e) as [a1|] eqn:E; [|discriminate].
+    apply (IH a1); auto.
+    destruct e; unfold spec_step in E.
+    + destruct (negb (sclosed a)); cbn [andb] in E; [|discriminate].
+      destruct (Nat.ltb_spec (length (sq a)) n); [|discriminate].
+      injection E as <-. cbn. rewrite app_length. cbn. lia.
+    + destruct (sq a) as [|x q] eqn:Eq; [discriminate|]. destruct (N.eqb x v); [|discriminate].
+      injection E as <-. cbn in *. lia.
+    + assert (a1 = a) as -> by (destruct (sq a); try discriminate; destruct (sclosed a); try discriminate; congruence). auto.
+    + injection E as <-. auto.
+    + assert (a1 = a) as -> by (destruct (sclosed a); try discriminate; congruence). auto.
+    + assert (a1 = a) as -> by (destruct (sclosed a || (length (sq a) =? n)); try discriminate; congruence). auto.
+    + assert (a1 = a) as -> by (destruct (sq a); try discriminate; destruct (sclosed a); try discriminate; congruence). auto.
+Qed.
+
+(* once closed, always closed, and nothing is sent any more *)
+Lemma spec_closed_stays n l : forall a a', sclosed a = true -> spec_run n a l = Some a' ->
+  sclosed a' = true /\ sent_of l = [].
+Proof.
+  induction l as [|e l IH]; intros a a' Hc H; cbn in H.
+  - injection H as <-. auto.
+  - destruct (spec_step n a e) as [a1|] eqn:E; [|discriminate].
+    assert (sclosed a1 = true /\ sent_of [e] = []) as [H1 H2].
+    { destruct e; unfold spec_step in E; rewrite ?Hc in E; cbn [negb andb orb] in E; try discriminate.
+      - destruct (sq a) as [|x q]; [discriminate|]. destruct (N.eqb x v); [|discriminate]. injection E as <-. auto.
+      - destruct (sq a); [|discriminate]. injection E as <-. auto.
+      - injection E as <-. auto.
+      - injection E as <-. auto.
+      - injection E as <-. auto.
+      - destruct (sq a); discriminate. }
+    destruct (IH _ _ H1 H) as [H3 H4]. split; auto.
+    change (e :: l) with ([e] ++ l). unfold sent_of in *. rewrite flat_map_app, H2, H4. auto.
+Qed.
+
+(* ================= part 4 ================= *)
+
+(* ---------- how one step changes the thread list ---------- *)
+Definition mu (b : bool) (th : thread) : thread := if b then unpark th else th.
+
+Lemma ths_apply_eff s t e :
+  ths (apply_eff s t e) = map (mu (e_bcast e)) (upd (deliver (ths s) (e_deliver e)) t (e_th e)).
+Proof.
+  unfold apply_eff; cbn [ths]. destruct (e_bcast e); cbn [mu]; auto.
+  symmetry. erewrite map_ext; [apply map_id|]. auto.
+Qed.
+
+(* same program, program counter and results; possibly woken, possibly a value delivered *)
+Definition same_ctl (a b : thread) : Prop :=
+  prog b = prog a /\ tpc b = tpc a /\ out b = out a /\ (parked b = true -> parked a = true).
+
+Lemma same_ctl_refl a : same_ctl a a.
+Proof. repeat split; auto. Qed.
+
+Lemma deliver_length l d : length (deliver l d) = length l.
+Proof.
+  destruct d as [[t v]|]; cbn; auto. destruct (nth_error l t); auto. apply upd_length.
+Qed.
+
+Lemma deliver_nth l d i th' :
+  nth_error (deliver l d) i = Some th' -> exists th, nth_error l i = Some th /\ same_ctl th th'.
+Proof.
+  destruct d as [[t v]|]; cbn.
+  - destruct (nth_error l t) as [tt|] eqn:E.
+    + destruct (Nat.eq_dec t i) as [->|N].
+      * rewrite nth_error_upd_same by (eapply nth_error_lt; eauto). intros [= <-].
+        exists tt. split; auto. repeat split; auto.
+      * rewrite nth_error_upd_other by auto. intros H. exists th'. split; auto. apply same_ctl_refl.
+    + intros H. exists th'. split; auto. apply same_ctl_refl.
+  - intros H. exists th'. split; auto. apply same_ctl_refl.
+Qed.
+
+Lemma mu_same b th : same_ctl th (mu b th).
+Proof. destruct b; repeat split; auto. cbn. discriminate. Qed.
+
+Lemma same_ctl_trans a b c : same_ctl a b -> same_ctl b c -> same_ctl a c.
+Proof. intros (A1 & A2 & A3 & A4) (B1 & B2 & B3 & B4). repeat split; try congruence. auto. Qed.
+
+(* threads other than the stepping one *)
+Lemma frame_other s t e i th' :
+  i <> t -> nth_error (ths (apply_eff s t e)) i = Some th' ->
+  exists th, nth_error (ths s) i = Some th /\ same_ctl th th' /\ (e_bcast e = true -> parked th' = false).
+Proof.
+  intros N. rewrite ths_apply_eff, nth_error_map, nth_error_upd_other by auto.
+  destruct (nth_error (deliver (ths s) (e_deliver e)) i) as [x|] eqn:E; [|cbn; discriminate].
+  cbn. intros [= <-]. apply deliver_nth in E as (th & E1 & E2).
+  exists th. split; auto. split.
+  - eapply same_ctl_trans; eauto. apply mu_same.
+  - intros ->. reflexivity.
+Qed.
+
+(* the stepping thread *)
+Lemma frame_self s t e th :
+  nth_error (ths s) t = Some th ->
+  nth_error (ths (apply_eff s t e)) t = Some (mu (e_bcast e) (e_th e)).
+Proof.
+  intros H. rewrite ths_apply_eff, nth_error_map, nth_error_upd_same; auto.
+  rewrite deliver_length. eapply nth_error_lt; eauto.
+Qed.
+
+(* ---------- classification of the critical sections of a buffered channel ---------- *)
+Definition cls (c : chan) (th : thread) (rest : list op) (e : eff) : Prop :=
+  (exists r, tpc th = PBcast (Some r) /\ e_ch e = c /\ e_bcast e = true /\ e_th e = fin th rest r) \/
+  (e_bcast e = false /\ (forall r, tpc th <> PBcast r) /\
+   ((e_ch e = c /\ ((e_th e = park th PSendW /\ len c = cap c) \/
+                    (e_th e = park th PRecvW /\ len c = 0 /\ closed c = false))) \/
+    (exists r th0, prog th0 = prog th /\ e_th e = goto th0 (PBcast (Some r))) \/
+    (e_ch e = c /\ exists r, e_th e = fin th rest r) \/
+    (e_ch e = c /\ e_th e = th))).
+
+Ltac cls_auto :=
+  cbn; first
+   [ solve [left; auto 6]
+   | solve [right; left; eexists _, _; split; [|reflexivity]; reflexivity]
+   | solve [right; right; left; split; [reflexivity|eexists; reflexivity]]
+   | solve [right; right; right; split; reflexivity] ].
+
+Lemma section_cls c th t o rest :
+  wf c -> pc_buf (tpc th) -> cls c th rest (section c th t o rest).
+Proof.
+  intros W P. pose proof (cap_nz c W) as Hz.
+  unfold section.
+  destruct (tpc th) as [| | |r| |] eqn:Epc; cbn in P; try contradiction.
+  - right. split; [|split; [intros ?; rewrite ?Epc; discriminate|]].
+    + destruct o; cbn; unfold send_sec, recv_sec, trysend_sec, tryrecv_sec; rewrite ?Hz;
+        repeat match goal with |- context [if ?b then _ else _] => destruct b end; reflexivity.
+    + destruct o as [v| |v| |]; unfold send_sec, recv_sec, trysend_sec, tryrecv_sec; rewrite ?Hz.
+      * destruct (Nat.eqb_spec (len c) (cap c)); [left; cbn; auto|].
+        destruct (closed c); cls_auto.
+      * destruct (Nat.eqb_spec (len c) 0); [|cls_auto].
+        destruct (closed c) eqn:Ec; cls_auto.
+      * destruct ((len c =? cap c) || closed c); cls_auto.
+      * destruct (len c =? 0); cls_auto.
+      * cls_auto.
+  - right. split; [|split; [intros ?; rewrite ?Epc; discriminate|]].
+    + destruct o; cbn; unfold send_sec; rewrite ?Hz;
+        repeat match goal with |- context [if ?b then _ else _] => destruct b end; reflexivity.
+    + destruct o as [v| |v| |]; try cls_auto. rewrite Hz. unfold send_sec; rewrite ?Hz.
+      destruct (Nat.eqb_spec (len c) (cap c)); [left; cbn; auto|].
+      destruct (closed c); cls_auto.
+  - right. split; [|split; [intros ?; rewrite ?Epc; discriminate|]].
+    + destruct o; cbn; unfold recv_sec; rewrite ?Hz;
+        repeat match goal with |- context [if ?b then _ else _] => destruct b end; reflexivity.
+    + destruct o as [v| |v| |]; try cls_auto. unfold recv_sec; rewrite ?Hz.
+      destruct (Nat.eqb_spec (len c) 0); [|cls_auto].
+      destruct (closed c) eqn:Ec; cls_auto.
+  - destruct r as [r|]; [|contradiction]. left. exists r. cbn. auto.
+Qed.
+
+(* ================= part 5 ================= *)
+
+(* ---------- no lost wake-up on a buffered channel ---------- *)
+Definition waiting_ok (c : chan) (th : thread) : Prop :=
+  parked th = true ->
+  (tpc th = PSendW /\ len c = cap c) \/ (tpc th = PRecvW /\ len c = 0 /\ closed c = false).
+
+Definition pending_bcast (l : list thread) : Prop :=
+  exists i th r, nth_error l i = Some th /\ prog th <> [] /\ parked th = false /\ tpc th = PBcast r.
+
+Definition nlw (s : state) : Prop :=
+  pending_bcast (ths s) \/ Forall (waiting_ok (ch s)) (ths s).
+
+Lemma nlw_step n s t s' : inv n s -> nlw s -> step s t = Some s' -> nlw s'.
+Proof.
+  intros (W & Hc & HF & HS) HN H.
+  apply step_inv in H as (th & o & rest & Et & Ep & [[Epk ->]|[Epk ->]]).
+  - (* spurious wake-up *)
+    destruct HN as [(i & b & r & Ei & Eb1 & Eb2 & Eb3)|HW].
+    + left. exists i, b, r. cbn [ths]. repeat split; auto.
+      destruct (Nat.eq_dec t i) as [->|N]; [congruence|]. now rewrite nth_error_upd_other.
+    + right. cbn [ths ch]. apply Forall_upd; auto. intros H. discriminate.
+  - pose proof (Forall_nth_error _ _ _ _ HF Et) as Hpc. cbn beta in Hpc.
+    pose proof (section_ok (ch s) th t o rest W Hpc) as (_ & _ & _ & Hd & _).
+    pose proof (section_cls (ch s) th t o rest W Hpc) as HC.
+    set (e := section (ch s) th t o rest) in *.
+    assert (Hself := frame_self s t e th Et).
+    destruct HC as [(r & Hr & Hch & Hb & Hth)|(Hb & Hnb & HC)].
+    + (* Broadcast: nobody stays parked *)
+      right. rewrite ths_apply_eff, Hb. rewrite Forall_map. apply Forall_forall.
+      intros x _ Hx. discriminate.
+    + assert (Hths : ths (apply_eff s t e) = upd (ths s) t (e_th e)).
+      { rewrite ths_apply_eff, Hb, Hd. cbn [deliver]. erewrite map_ext; [apply map_id|]. auto. }
+      assert (Hchs : ch (apply_eff s t e) = e_ch e) by reflexivity.
+      assert (Hkeep : pending_bcast (ths s) -> pending_bcast (upd (ths s) t (e_th e))).
+      { intros (i & b & r & Ei & Eb1 & Eb2 & Eb3).
+        exists i, b, r. repeat split; auto.
+        destruct (Nat.eq_dec t i) as [->|N]; [|now rewrite nth_error_upd_other].
+        exfalso. apply (Hnb r). congruence. }
+      unfold nlw. rewrite Hths, Hchs.
+      destruct HC as [(Hch & HP)|[(r & th0 & Hp0 & Hth)|[(Hch & r & Hth)|(Hch & Hth)]]].
+      * (* the thread parks: its condition holds now *)
+        destruct HN as [HN|HW]; [left; auto|]. right. rewrite Hch.
+        apply Forall_upd; auto. intros _.
+        destruct HP as [(-> & HP)|(-> & HP)]; cbn; auto.
+      * (* the channel changed: this thread is about to Broadcast *)
+        left. exists t, (e_th e), (Some r). rewrite nth_error_upd_same by (eapply nth_error_lt; eauto).
+        rewrite Hth. cbn. repeat split; auto. rewrite Hp0, Ep. discriminate.
+      * destruct HN as [HN|HW]; [left; auto|]. right. rewrite Hch.
+        apply Forall_upd; auto. rewrite Hth. intros H; discriminate.
+      * destruct HN as [HN|HW]; [left; auto|]. right. rewrite Hch.
+        apply Forall_upd; auto. rewrite Hth. intros H; congruence.
+Qed.
+
+(* ================= part 6 ================= *)
+
+Lemma nlw_init n progs : nlw (init n progs).
+Proof.
+  right. apply Forall_forall. intros th H. apply in_map_iff in H as (p & <- & _).
+  intros H. discriminate.
+Qed.
+
+Lemma inv_nlw_run n sc : forall s, inv n s -> nlw s -> inv n (run sc s) /\ nlw (run sc s).
+Proof.
+  induction sc as [|t sc IH]; intros s H1 H2; cbn; auto.
+  destruct (step s t) eqn:E; auto. apply IH.
+  - eapply inv_step; eauto.
+  - eapply nlw_step; eauto.
+Qed.
+
+Lemma quiescent_blocked_legit n progs sc :
+  0 < n -> let s := run sc (init n progs) in
+  (forall th, In th (ths s) -> enabled th = false) ->
+  forall th, In th (ths s) -> prog th <> [] ->
+    parked th = true /\
+    ((tpc th = PSendW /\ len (ch s) = n) \/
+     (tpc th = PRecvW /\ len (ch s) = 0 /\ closed (ch s) = false)).
+Proof.
+  intros Hn s Hq th Hin Hp.
+  destruct (inv_nlw_run n sc (init n progs) (inv_init n progs Hn) (nlw_init n progs)) as [HI HN].
+  fold s in HI, HN. destruct HI as (_ & Hc & _).
+  assert (parked th = true) as Hpk.
+  { specialize (Hq th Hin). unfold enabled in Hq. destruct (prog th); [congruence|].
+    now destruct (parked th). }
+  split; auto.
+  destruct HN as [(i & b & r & Ei & Eb1 & Eb2 & Eb3)|HW].
+  - exfalso. apply nth_error_In in Ei. specialize (Hq b Ei). unfold enabled in Hq.
+    destruct (prog b); [congruence|]. rewrite Eb2 in Hq. discriminate.
+  - rewrite Forall_forall in HW. specialize (HW th Hin Hpk). rewrite <- Hc. exact HW.
+Qed.
+
+(* ---------- non-blocking operations ---------- *)
+Definition is_tryop (n : nat) (o : op) : Prop :=
+  match o with OTrySend _ => True | OTryRecv => 0 < n | _ => False end.
+
+Definition try_ok (n : nat) (th : thread) : Prop :=
+  match prog th with
+  | o :: _ => is_tryop n o -> parked th = false /\ (tpc th = PStart \/ exists r, tpc th = PBcast (Some r))
+  | [] => True
+  end.
+
+Lemma try_ok_same n a b : same_ctl a b -> try_ok n a -> try_ok n b.
+Proof.
+  intros (A1 & A2 & A3 & A4). unfold try_ok. rewrite A1, A2. destruct (prog a); auto.
+  intros H Ht. destruct (H Ht) as [H1 H2]. split; auto.
+  destruct (parked b) eqn:E; auto. specialize (A4 eq_refl). congruence.
+Qed.
+
+Lemma try_ok_fin n th rest r : try_ok n (fin th rest r).
+Proof. unfold try_ok; cbn. destruct rest; auto. Qed.
+
+(* the stepping thread keeps try_ok *)
+Lemma try_ok_section n c th t o rest :
+  cap c = n -> prog th = o :: rest -> parked th = false -> try_ok n th ->
+  try_ok n (e_th (section c th t o rest)).
+Proof.
+  intros Hc Ep Epk H. unfold try_ok in H. rewrite Ep in H.
+  unfold section.
+  destruct o as [v| |v| |].
+  1,2,5: (* not a try operation: whatever the thread becomes, its program is the same or it finished *)
+    destruct (tpc th) as [| | |[r|]| |]; cbn;
+    unfold send_sec, recv_sec, recv2_sec, noop;
+    repeat match goal with |- context [if ?b then _ else _] => destruct b end; cbn;
+    try apply try_ok_fin; unfold try_ok; cbn; rewrite ?Ep; cbn; intros [].
+  - (* OTrySend *)
+    destruct (H I) as [_ [Hp|(r & Hp)]]; rewrite Hp.
+    + unfold trysend_sec.
+      repeat match goal with |- context [if ?b then _ else _] => destruct b end; cbn;
+        try apply try_ok_fin; unfold try_ok; cbn; rewrite Ep; eauto.
+    + cbn. apply try_ok_fin.
+  - (* OTryRecv *)
+    destruct (Nat.eq_dec n 0) as [Hz|Hz].
+    + (* unbuffered: no claim *)
+      destruct (tpc th) as [| | |[r|]| |]; cbn;
+      unfold tryrecv_sec, recv2_sec, noop;
+      repeat match goal with |- context [if ?b then _ else _] => destruct b end; cbn;
+      try apply try_ok_fin; unfold try_ok; cbn; rewrite ?Ep; cbn; lia.
+    + destruct (H ltac:(cbn; lia)) as [_ [Hp|(r & Hp)]]; rewrite Hp.
+      * unfold tryrecv_sec. assert ((cap c =? 0) = false) as -> by (apply Nat.eqb_neq; lia).
+        repeat match goal with |- context [if ?b then _ else _] => destruct b end; cbn;
+          try apply try_ok_fin; unfold try_ok; cbn; rewrite Ep; eauto.
+      * cbn. apply try_ok_fin.
+Qed.
+
+Definition tinv (n : nat) (s : state) : Prop := cap (ch s) = n /\ Forall (try_ok n) (ths s).
+
+Lemma cap_section c th t o rest : cap (e_ch (section c th t o rest)) = cap c.
+Proof.
+  unfold section. destruct (tpc th) as [| | |[r|]| |], o; cbn;
+    unfold send_sec, recv_sec, trysend_sec, tryrecv_sec, recv2_sec, noop;
+    repeat match goal with |- context [if ?b then _ else _] => destruct b end; reflexivity.
+Qed.
+
+Lemma tinv_step n s t s' : tinv n s -> step s t = Some s' -> tinv n s'.
+Proof.
+  intros (Hc & HF) H.
+  apply step_inv in H as (th & o & rest & Et & Ep & [[Epk ->]|[Epk ->]]).
+  - split; auto. cbn. apply Forall_upd; auto.
+    pose proof (Forall_nth_error _ _ _ _ HF Et) as H0. eapply try_ok_same; eauto.
+    repeat split; auto; cbn; discriminate.
+  - split. { cbn. rewrite cap_section. auto. }
+    apply Forall_forall. intros x Hx. apply In_nth_error in Hx as (i & Hi).
+    destruct (Nat.eq_dec i t) as [->|N].
+    + rewrite (frame_self s t _ th Et) in Hi. injection Hi as <-.
+      eapply try_ok_same; [apply mu_same|].
+      apply try_ok_section; auto. exact (Forall_nth_error _ _ _ _ HF Et).
+    + apply frame_other in Hi as (th0 & E0 & Hs & _); auto.
+      eapply try_ok_same; eauto. exact (Forall_nth_error _ _ _ _ HF E0).
+Qed.
+
+Lemma tinv_run n sc : forall s, tinv n s -> tinv n (run sc s).
+Proof.
+  induction sc as [|t sc IH]; intros s H; cbn; auto.
+  destruct (step s t) eqn:E; auto. apply IH. eapply tinv_step; eauto.
+Qed.
+
+Lemma tinv_init n progs : tinv n (init n progs).
+Proof.
+  split; auto. apply Forall_forall. intros th H. apply in_map_iff in H as (p & <- & _).
+  unfold try_ok; cbn. destruct p; auto.
+Qed.
+
+(* thread t has finished the operation in front of rest *)
+Definition done_op (t : nat) (rest : list op) (s : state) : Prop :=
+  exists th, nth_error (ths s) t = Some th /\ prog th = rest.
+
+Lemma try_never_blocks n progs sc t th o rest :
+  let s := run sc (init n progs) in
+  nth_error (ths s) t = Some th -> prog th = o :: rest -> is_tryop n o ->
+  parked th = false /\
+  exists s1, step s t = Some s1 /\
+    (done_op t rest s1 \/ exists s2, step s1 t = Some s2 /\ done_op t rest s2).
+Proof.
+  intros s Et Ep Ho.
+  destruct (tinv_run n sc _ (tinv_init n progs)) as [Hc HF]. fold s in Hc, HF.
+  pose proof (Forall_nth_error _ _ _ _ HF Et) as H0. unfold try_ok in H0. rewrite Ep in H0.
+  destruct (H0 Ho) as [Hpk Hpc]. split; auto.
+  unfold step at 1. rewrite Et, Ep, Hpk. eexists; split; [reflexivity|].
+  set (e := section (ch s) th t o rest).
+  assert (Hself := frame_self s t e th Et).
+  destruct Hpc as [Hp|(r & Hp)].
+  - (* at the opening Lock: either it fails at once or it still has to Broadcast *)
+    assert (e_bcast e = false /\
+            (prog (e_th e) = rest \/ (prog (e_th e) = o :: rest /\ parked (e_th e) = false /\
+                                     exists r, tpc (e_th e) = PBcast (Some r)))) as (Hb & Hcase).
+    { unfold e, section. rewrite Hp.
+      destruct o as [v| |v| |]; try contradiction.
+      - unfold trysend_sec.
+        repeat match goal with |- context [if ?b then _ else _] => destruct b end; cbn; rewrite ?Ep; eauto 8.
+      - cbn in Ho. unfold tryrecv_sec. assert ((cap (ch s) =? 0) = false) as -> by (apply Nat.eqb_neq; lia).
+        repeat match goal with |- context [if ?b then _ else _] => destruct b end; cbn; rewrite ?Ep; eauto 8. }
+    rewrite Hb in Hself. cbn [mu] in Hself.
+    destruct Hcase as [Hd|(Hd1 & Hd2 & r & Hd3)].
+    + left. exists (e_th e). auto.
+    + right. unfold step. rewrite Hself, Hd1, Hd2. eexists; split; [reflexivity|].
+      unfold section at 1. rewrite Hd3.
+      eexists. split; [eapply frame_self; eauto|]. cbn. destruct (e_bcast _); reflexivity.
+  - left. eexists. split; [exact Hself|]. unfold e, section. rewrite Hp. reflexivity.
+Qed.
+
+(* ================= part 7 ================= *)
+
+(* ---------- results of the calls vs. the event log ---------- *)
+Definition ev_recv (e : option event) : list N :=
+  match e with Some (ERecv v) => [v] | _ => [] end.
+
+Lemma received_section c th t o rest :
+  received_by (e_th (section c th t o rest)) = received_by th ++ ev_recv (e_ev (section c th t o rest)).
+Proof.
+  unfold section, received_by, pending_res.
+  destruct (tpc th) as [| | |[r|]| |] eqn:Epc, o; cbn;
+    unfold send_sec, recv_sec, trysend_sec, tryrecv_sec, recv2_sec, noop;
+    repeat match goal with |- context [if ?b then _ else _] => destruct b end;
+    cbn; rewrite ?Epc; cbn; rewrite ?flat_map_app; cbn; rewrite ?app_nil_r; auto.
+Qed.
+
+Lemma received_same a b : same_ctl a b -> received_by b = received_by a.
+Proof. intros (A1 & A2 & A3 & A4). unfold received_by, pending_res. now rewrite A2, A3. Qed.
+
+Definition tie (s : state) : Prop :=
+  forall t th, nth_error (ths s) t = Some th -> received_by th = rcvd_of (events_of t (log s)).
+
+Lemma events_of_snoc_other i t x l : i <> t -> events_of i (l ++ [(t, x)]) = events_of i l.
+Proof.
+  intros N. unfold events_of. rewrite filter_app. cbn.
+  destruct (Nat.eqb_spec t i); [congruence|]. now rewrite app_nil_r.
+Qed.
+
+Lemma events_of_snoc_self t x l : events_of t (l ++ [(t, x)]) = events_of t l ++ [x].
+Proof.
+  unfold events_of. rewrite filter_app. cbn. rewrite Nat.eqb_refl. now rewrite map_app.
+Qed.
+
+Lemma rcvd_of_snoc l x : rcvd_of (l ++ [x]) = rcvd_of l ++ ev_recv (Some x).
+Proof. unfold rcvd_of. rewrite flat_map_app. cbn. destruct x; cbn; now rewrite ?app_nil_r. Qed.
+
+Lemma tie_step s t s' : tie s -> step s t = Some s' -> tie s'.
+Proof.
+  intros HT H.
+  apply step_inv in H as (th & o & rest & Et & Ep & [[Epk ->]|[Epk ->]]).
+  - intros i x Hi. cbn [ths log] in *.
+    destruct (Nat.eq_dec t i) as [->|N].
+    + rewrite nth_error_upd_same in Hi by (eapply nth_error_lt; eauto). injection Hi as <-.
+      rewrite <- (HT _ _ Et). apply received_same. repeat split; auto; cbn; discriminate.
+    + rewrite nth_error_upd_other in Hi by auto. auto.
+  - set (e := section (ch s) th t o rest). intros i x Hi.
+    assert (Hlog : log (apply_eff s t e) = match e_ev e with Some ev => log s ++ [(t, ev)] | None => log s end)
+      by reflexivity.
+    destruct (Nat.eq_dec i t) as [->|N].
+    + rewrite (frame_self s t e th Et) in Hi. injection Hi as <-.
+      rewrite (received_same _ _ (mu_same _ _)). unfold e at 1. rewrite received_section. fold e.
+      rewrite (HT _ _ Et), Hlog. destruct (e_ev e) as [ev|].
+      * now rewrite events_of_snoc_self, rcvd_of_snoc.
+      * cbn. now rewrite app_nil_r.
+    + apply frame_other in Hi as (th0 & E0 & Hs & _); auto.
+      rewrite (received_same _ _ Hs), (HT _ _ E0), Hlog.
+      destruct (e_ev e); auto. now rewrite events_of_snoc_other.
+Qed.
+
+Lemma tie_run sc : forall s, tie s -> tie (run sc s).
+Proof.
+  induction sc as [|t sc IH]; intros s H; cbn; auto.
+  destruct (step s t) eqn:E; auto. apply IH. eapply tie_step; eauto.
+Qed.
+
+Lemma tie_init n progs : tie (init n progs).
+Proof.
+  intros t th H. cbn in H. rewrite nth_error_map in H.
+  destruct (nth_error progs t); cbn in H; [|discriminate]. injection H as <-. reflexivity.
+Qed.
+
+(* ================= part 8 ================= *)
+
+Lemma spec_closed_needs_close n l : forall a a',
+  spec_run n a l = Some a' -> sclosed a = false -> sclosed a' = true -> In EClose l.
+Proof.
+  induction l as [|e l IH]; intros a a' H Ha Ha'; cbn in H.
+  - injection H as <-. congruence.
+  - destruct (spec_step n a e) as [a1|] eqn:E; [|discriminate].
+    destruct e; try (left; reflexivity); right; apply (IH a1 a'); auto; unfold spec_step in E.
+    + destruct (negb (sclosed a) && (length (sq a) <? n)); [|discriminate]. now injection E as <-.
+    + destruct (sq a) as [|x q]; [discriminate|]. destruct (N.eqb x v); [|discriminate]. now injection E as <-.
+    + destruct (sq a); [|discriminate]. destruct (sclosed a) eqn:Ec; [|discriminate]. congruence.
+    + destruct (sclosed a) eqn:Ec; [|discriminate]. congruence.
+    + destruct (sclosed a || (length (sq a) =? n)); [|discriminate]. congruence.
+    + destruct (sq a); [|discriminate]. destruct (sclosed a) eqn:Ec; [discriminate|]. congruence.
+Qed.
+
+Lemma run_refines n progs sc : 0 < n ->
+  spec_run n spec0 (events (run sc (init n progs))) = Some (abs (run sc (init n progs))).
+Proof. intros H. apply (inv_run n sc _ (inv_init n progs H)). Qed.
+
+Lemma run_cap n progs sc : 0 < n ->
+  len (ch (run sc (init n progs))) <= n /\ length (contents (ch (run sc (init n progs)))) <= n.
+Proof.
+  intros H. destruct (inv_run n sc _ (inv_init n progs H)) as ((_ & _ & _ & Hl) & Hc & _).
+  rewrite contents_length. lia.
+Qed.
+
+Lemma run_fifo n progs sc : 0 < n ->
+  sent_of (events (run sc (init n progs))) =
+  rcvd_of (events (run sc (init n progs))) ++ contents (ch (run sc (init n progs))).
+Proof. intros H. apply (spec_fifo n _ spec0 _ (run_refines n progs sc H)). Qed.
+
+Lemma run_recv_closed n progs sc l1 l2 : 0 < n ->
+  events (run sc (init n progs)) = l1 ++ ERecvClosed :: l2 ->
+  In EClose l1 /\ sent_of l1 = rcvd_of l1.
+Proof.
+  intros H E. pose proof (run_refines n progs sc H) as R. rewrite E in R.
+  apply spec_run_app in R as (a1 & R1 & R2). cbn in R2.
+  destruct (sq a1) eqn:Eq; [|discriminate]. destruct (sclosed a1) eqn:Ec; [|discriminate].
+  split.
+  - eapply spec_closed_needs_close; eauto.
+  - pose proof (spec_fifo n _ _ _ R1) as F. rewrite Eq, app_nil_r in F. exact F.
+Qed.
+
+Lemma run_after_close n progs sc l1 l2 : 0 < n ->
+  events (run sc (init n progs)) = l1 ++ EClose :: l2 -> sent_of l2 = [].
+Proof.
+  intros H E. pose proof (run_refines n progs sc H) as R. rewrite E in R.
+  apply spec_run_app in R as (a1 & R1 & R2). cbn in R2.
+  eapply spec_closed_stays in R2; [tauto|reflexivity].
+Qed.
+
+Lemma run_tie n progs sc t th :
+  nth_error (ths (run sc (init n progs))) t = Some th ->
+  received_by th = rcvd_of (events_of t (log (run sc (init n progs)))).
+Proof. apply (tie_run sc _ (tie_init n progs)). Qed.
+
+(* ---------- witnesses of the defects (replayed on the real code by props/C10/check.py) ---------- *)
 Definition w_recv_blocked_after_delivery : nat * list (list op) * schedule :=
   (0%nat, [[ORecv]; [ORecv]; [OSend 7]], [0;0;0;1;2;2;1;0;1;1;0]%nat).
 Definition w_recv_delivered_reported_closed : nat * list (list op) * schedule :=
@@ -12,9 +785,67 @@ Definition w_close_closed_no_panic : nat * list (list op) * schedule :=
   (1%nat, [[OClose; OClose]], [0;0;0;0]%nat).
 Definition w_tryrecv_blocks : nat * list (list op) * schedule :=
   (0%nat, [[OSend 7; ORecv]; [OTryRecv]], [0;1;1;0;0;0;0;1;0]%nat).
-Eval vm_compute in observe w_recv_blocked_after_delivery.
-Eval vm_compute in observe w_recv_delivered_reported_closed.
-Eval vm_compute in observe w_send_full_then_close.
-Eval vm_compute in observe w_send_closed_no_panic.
-Eval vm_compute in observe w_close_closed_no_panic.
-Eval vm_compute in observe w_tryrecv_blocks.
+
+Definition final (w : nat * list (list op) * schedule) : state :=
+  let '(n, progs, sc) := w in run sc (init n progs).
+
+Definition quiescent (s : state) : Prop := forall th, In th (ths s) -> enabled th = false.
+Definition all_done (s : state) : Prop := forall th, In th (ths s) -> prog th = [].
+
+Lemma f4_recv_blocked :
+  let s := final w_recv_blocked_after_delivery in
+  quiescent s /\ In (ESend 7%N) (events s) /\
+  (exists th, nth_error (ths s) 0 = Some th /\ prog th = [ORecv] /\ parked th = true /\ slot th = 7%N) /\
+  (forall th, In th (ths s) -> ~ In 7%N (received_by th)).
+Proof.
+  vm_compute. repeat split.
+  - intros th [<-|[<-|[<-|[]]]]; reflexivity.
+  - auto.
+  - eexists; repeat split.
+  - intros th [<-|[<-|[<-|[]]]]; cbn; tauto.
+Qed.
+
+Lemma f19_recv_reported_closed :
+  let s := final w_recv_delivered_reported_closed in
+  all_done s /\ In (ESend 7%N) (events s) /\
+  (exists th, nth_error (ths s) 0 = Some th /\ out th = [RRecv false 7%N]) /\
+  (exists th, nth_error (ths s) 1 = Some th /\ out th = [RSend true; RClose]).
+Proof.
+  vm_compute. repeat split.
+  - intros th [<-|[<-|[]]]; reflexivity.
+  - auto.
+  - eexists; repeat split.
+  - eexists; repeat split.
+Qed.
+
+Lemma f4_send_full_close :
+  let s := final w_send_full_then_close in
+  quiescent s /\ closed (ch s) = true /\
+  (exists th, nth_error (ths s) 0 = Some th /\ prog th = [OSend 6%N] /\ parked th = true /\ tpc th = PSendW).
+Proof.
+  vm_compute. repeat split.
+  - intros th [<-|[<-|[]]]; reflexivity.
+  - eexists; repeat split.
+Qed.
+
+Lemma f5_send_closed :
+  let s := final w_send_closed_no_panic in
+  exists th, nth_error (ths s) 0 = Some th /\ prog th = [] /\ out th = [RClose; RSend false].
+Proof. vm_compute. eexists; repeat split. Qed.
+
+Lemma f5_close_closed :
+  let s := final w_close_closed_no_panic in
+  exists th, nth_error (ths s) 0 = Some th /\ prog th = [] /\ out th = [RClose; RClose].
+Proof. vm_compute. eexists; repeat split. Qed.
+
+Lemma tryrecv_blocks :
+  let s := final w_tryrecv_blocks in
+  quiescent s /\
+  (exists th, nth_error (ths s) 1 = Some th /\ prog th = [OTryRecv] /\ parked th = true /\ slot th = 7%N) /\
+  (exists th, nth_error (ths s) 0 = Some th /\ out th = [RSend true]).
+Proof.
+  vm_compute. repeat split.
+  - intros th [<-|[<-|[]]]; reflexivity.
+  - eexists; repeat split.
+  - eexists; repeat split.
+Qed.
